@@ -32,7 +32,10 @@ CONSTANTS
     Traffic,       \* BOOLEAN: packets keep arriving from the peer (mediaFlowing)
     Deviations,    \* subset of DeviationNames
     Props,         \* property ids whose rules are switched on ("C17", "C10", "EXT")
-    ScenarioPlans  \* set of [phase, evs, pendingWfc, afterWfc]: which terminating events fire when
+    MaxEvents,     \* how many terminating events may fire in one behaviour (1 or 2)
+    PhaseSet,      \* phases at which the first event may fire
+    Ev1Set, Ev2Set,\* first / second (racing) event alphabets
+    WfcBudget      \* wait_for_connected() calls the application makes (0..2)
 
 DeviationNames == {
     "OverwriteClosed",       \* loops publish peer state without looking at the current value
@@ -75,11 +78,11 @@ VARIABLES
     handles, dropped,             \* application handles alive; PeerConnectionInner dropped
     calls,                        \* pending API calls
     peerAlive, alertIn, abortIn, shutdownIn,   \* the peer and what it has sent
-    plan, fired                   \* terminating events still to fire / already fired (scenario)
+    wfcLeft, fired                \* wait_for_connected() calls the application may still make; events fired
 
 vars == <<peer, sig, reason, ap, iceT, sock, seenL, seenC, role, lp, cp, cval, cnext, dtls, dtask, dpermit,
           seenD, sctp, stask, srun, spermit, swhy, loops, chan, opened, closes, grace, cl, handles, dropped,
-          calls, peerAlive, alertIn, abortIn, shutdownIn, plan, fired>>
+          calls, peerAlive, alertIn, abortIn, shutdownIn, wfcLeft, fired>>
 
 -----------------------------------------------------------------------------
 (* helpers *)
@@ -88,7 +91,8 @@ SetReason(r) == reason' = IF reason = "None" THEN r ELSE reason
 
 \* publication of the peer state by a background loop
 LoopPublish(s) ==
-    peer' = IF "OverwriteClosed" \in Deviations \/ peer # "Closed" THEN s ELSE peer
+    \/ peer' = (IF peer # "Closed" THEN s ELSE peer)
+    \/ "OverwriteClosed" \in Deviations /\ peer' = s
 
 SctpReason(w) ==
     CASE w = "REMOTE_ABORT"      -> "SctpRemoteAbort"
@@ -151,7 +155,7 @@ Init ==
     /\ handles = 1 /\ dropped = FALSE
     /\ calls = {}
     /\ peerAlive = TRUE /\ alertIn = FALSE /\ abortIn = FALSE /\ shutdownIn = FALSE
-    /\ plan \in ScenarioPlans
+    /\ wfcLeft = WfcBudget
     /\ fired = <<>>
 
 -----------------------------------------------------------------------------
@@ -165,14 +169,14 @@ A_MakeOffer ==
     /\ chan' = IF Dc THEN "connecting" ELSE chan
     /\ UNCHANGED <<peer, sig, reason, iceT, sock, seenL, seenC, role, lp, cp, cval, cnext, dtls, dtask, dpermit,
                    seenD, sctp, stask, srun, spermit, swhy, loops, opened, closes, grace, cl, handles, dropped,
-                   calls, peerAlive, alertIn, abortIn, shutdownIn, plan, fired>>
+                   calls, peerAlive, alertIn, abortIn, shutdownIn, wfcLeft, fired>>
 
 A_GatherDone ==
     /\ ap = "gathering"
     /\ ap' = "gathered"
     /\ UNCHANGED <<peer, sig, reason, iceT, sock, seenL, seenC, role, lp, cp, cval, cnext, dtls, dtask, dpermit,
                    seenD, sctp, stask, srun, spermit, swhy, loops, chan, opened, closes, grace, cl, handles,
-                   dropped, calls, peerAlive, alertIn, abortIn, shutdownIn, plan, fired>>
+                   dropped, calls, peerAlive, alertIn, abortIn, shutdownIn, wfcLeft, fired>>
 
 \* set_local_description(offer): check then commit
 A_SetLocal ==
@@ -182,7 +186,7 @@ A_SetLocal ==
        ELSE sig' = sig /\ ap' = "sigFailed"
     /\ UNCHANGED <<peer, reason, iceT, sock, seenL, seenC, role, lp, cp, cval, cnext, dtls, dtask, dpermit,
                    seenD, sctp, stask, srun, spermit, swhy, loops, chan, opened, closes, grace, cl, handles,
-                   dropped, calls, peerAlive, alertIn, abortIn, shutdownIn, plan, fired>>
+                   dropped, calls, peerAlive, alertIn, abortIn, shutdownIn, wfcLeft, fired>>
 
 \* set_remote_description(answer): signaling commit, DTLS role, ICE start
 A_SetRemote ==
@@ -195,17 +199,17 @@ A_SetRemote ==
        ELSE sig' = sig /\ ap' = "sigFailed" /\ UNCHANGED <<role, iceT, sock>>
     /\ UNCHANGED <<peer, reason, seenL, seenC, lp, cp, cval, cnext, dtls, dtask, dpermit,
                    seenD, sctp, stask, srun, spermit, swhy, loops, chan, opened, closes, grace, cl, handles,
-                   dropped, calls, peerAlive, alertIn, abortIn, shutdownIn, plan, fired>>
+                   dropped, calls, peerAlive, alertIn, abortIn, shutdownIn, wfcLeft, fired>>
 
 \* a new local offer on an established connection
 A_Reneg ==
     /\ ap = "signaled" /\ handles > 0 /\ cp = "run" /\ peer = "Connected" /\ (Dc => chan = "open")
-    /\ plan.phase = "renegotiating"
+    /\ "renegotiating" \in PhaseSet /\ fired = <<>>
     /\ sig = "Stable"
     /\ sig' = "HaveLocalOffer" /\ ap' = "reneg"
     /\ UNCHANGED <<peer, reason, iceT, sock, seenL, seenC, role, lp, cp, cval, cnext, dtls, dtask, dpermit,
                    seenD, sctp, stask, srun, spermit, swhy, loops, chan, opened, closes, grace, cl, handles,
-                   dropped, calls, peerAlive, alertIn, abortIn, shutdownIn, plan, fired>>
+                   dropped, calls, peerAlive, alertIn, abortIn, shutdownIn, wfcLeft, fired>>
 
 \* a late signaling commit after close(): the check was made before close() published Closed
 A_SigLate ==
@@ -215,7 +219,7 @@ A_SigLate ==
     /\ ap' = "sigFailed"
     /\ UNCHANGED <<peer, reason, iceT, sock, seenL, seenC, role, lp, cp, cval, cnext, dtls, dtask, dpermit,
                    seenD, sctp, stask, srun, spermit, swhy, loops, chan, opened, closes, grace, cl, handles,
-                   dropped, calls, peerAlive, alertIn, abortIn, shutdownIn, plan, fired>>
+                   dropped, calls, peerAlive, alertIn, abortIn, shutdownIn, wfcLeft, fired>>
 
 -----------------------------------------------------------------------------
 (* close_with_reason in its steps (k = 1, 2: application calls; 3: Drop for PeerConnectionInner) *)
@@ -232,7 +236,7 @@ A_Close1(k) ==
                       ELSE CloseReason(k)
     /\ UNCHANGED <<peer, sig, ap, iceT, sock, seenL, seenC, role, lp, cp, cval, cnext, dtls, dtask, dpermit,
                    seenD, sctp, stask, srun, spermit, swhy, loops, chan, opened, closes, grace, handles,
-                   dropped, calls, peerAlive, alertIn, abortIn, shutdownIn, plan, fired>>
+                   dropped, calls, peerAlive, alertIn, abortIn, shutdownIn, wfcLeft, fired>>
 
 A_Close2(k) ==
     /\ cl[k] = "pub"
@@ -240,7 +244,7 @@ A_Close2(k) ==
     /\ cl' = [cl EXCEPT ![k] = "sctp"]
     /\ UNCHANGED <<reason, ap, iceT, sock, seenL, seenC, role, lp, cp, cval, cnext, dtls, dtask, dpermit,
                    seenD, sctp, stask, srun, spermit, swhy, loops, chan, opened, closes, grace, handles,
-                   dropped, calls, peerAlive, alertIn, abortIn, shutdownIn, plan, fired>>
+                   dropped, calls, peerAlive, alertIn, abortIn, shutdownIn, wfcLeft, fired>>
 
 \* SctpTransport::close(): state Closed, one permit, blocked senders woken
 A_Close3(k) ==
@@ -252,7 +256,7 @@ A_Close3(k) ==
     /\ cl' = [cl EXCEPT ![k] = "dtls"]
     /\ UNCHANGED <<peer, sig, reason, ap, iceT, sock, seenL, seenC, role, lp, cp, cval, cnext, dtls, dtask,
                    dpermit, seenD, stask, srun, swhy, loops, chan, opened, closes, grace, handles,
-                   dropped, peerAlive, alertIn, abortIn, shutdownIn, plan, fired>>
+                   dropped, peerAlive, alertIn, abortIn, shutdownIn, wfcLeft, fired>>
 
 A_Close4(k) ==
     /\ cl[k] = "dtls"
@@ -260,7 +264,7 @@ A_Close4(k) ==
     /\ cl' = [cl EXCEPT ![k] = "ice"]
     /\ UNCHANGED <<peer, sig, reason, ap, iceT, sock, seenL, seenC, role, lp, cp, cval, cnext, dtls, dtask,
                    seenD, sctp, stask, srun, spermit, swhy, loops, chan, opened, closes, grace, handles,
-                   dropped, calls, peerAlive, alertIn, abortIn, shutdownIn, plan, fired>>
+                   dropped, calls, peerAlive, alertIn, abortIn, shutdownIn, wfcLeft, fired>>
 
 A_Close5(k) ==
     /\ cl[k] = "ice"
@@ -268,17 +272,19 @@ A_Close5(k) ==
     /\ cl' = [cl EXCEPT ![k] = "done"]
     /\ UNCHANGED <<peer, sig, reason, ap, seenL, seenC, role, lp, cp, cval, cnext, dtls, dtask, dpermit,
                    seenD, sctp, stask, srun, spermit, swhy, loops, chan, opened, closes, grace, handles,
-                   dropped, calls, peerAlive, alertIn, abortIn, shutdownIn, plan, fired>>
+                   dropped, calls, peerAlive, alertIn, abortIn, shutdownIn, wfcLeft, fired>>
 
 \* the last application handle is gone and no task holds the connection: Drop runs close and
 \* aborts the tracked tasks (L with C inside it); the loops guard goes with C
-InnerDrop ==
-    /\ handles = 0 /\ ~dropped /\ StrongRefs = 0 /\ calls = {} /\ cl[3] = "idle"
+InnerDropCore ==
+    /\ handles = 0 /\ ~dropped /\ calls = {} /\ cl[3] = "idle"
     /\ cl' = [cl EXCEPT ![3] = "begin"]
     /\ dropped' = TRUE
     /\ UNCHANGED <<peer, sig, reason, ap, iceT, sock, seenL, seenC, role, lp, cp, cval, cnext, dtls, dtask,
                    dpermit, seenD, sctp, stask, srun, spermit, swhy, loops, chan, opened, closes, grace,
-                   handles, calls, peerAlive, alertIn, abortIn, shutdownIn, plan, fired>>
+                   handles, calls, peerAlive, alertIn, abortIn, shutdownIn, wfcLeft, fired>>
+
+InnerDrop == StrongRefs = 0 /\ InnerDropCore
 
 \* abort_tracked_tasks after the close steps of Drop
 AbortTracked ==
@@ -291,14 +297,14 @@ AbortTracked ==
             ELSE UNCHANGED <<loops, stask, chan, closes>>
     /\ UNCHANGED <<peer, sig, reason, ap, iceT, sock, seenL, seenC, role, cval, cnext, dtls, dtask, dpermit,
                    seenD, sctp, srun, spermit, swhy, opened, grace, cl, handles, dropped, calls,
-                   peerAlive, alertIn, abortIn, shutdownIn, plan, fired>>
+                   peerAlive, alertIn, abortIn, shutdownIn, wfcLeft, fired>>
 
 -----------------------------------------------------------------------------
 (* L: ice -> pc loop *)
 
 LUnch == <<sig, ap, iceT, sock, seenC, role, dtls, dtask, dpermit, seenD, sctp, stask, srun, spermit,
            swhy, loops, chan, opened, closes, grace, cl, handles, dropped, calls, peerAlive, alertIn, abortIn,
-           shutdownIn, plan, fired>>
+           shutdownIn, wfcLeft, fired>>
 
 L_Top ==
     /\ lp = "top" /\ ~dropped
@@ -329,7 +335,7 @@ L_EnterConn ==
     /\ UNCHANGED <<peer, reason, seenL, cval, cnext>>
     /\ UNCHANGED <<sig, ap, iceT, sock, role, dtls, dtask, dpermit, seenD, sctp, stask, srun, spermit,
                    swhy, loops, chan, opened, closes, grace, cl, handles, dropped, calls, peerAlive, alertIn,
-                   abortIn, shutdownIn, plan, fired>>
+                   abortIn, shutdownIn, wfcLeft, fired>>
 
 L_PubFailed ==
     /\ lp = "pre:iceloop.ice_failed"
@@ -356,13 +362,13 @@ L_ConnReturn ==
     /\ UNCHANGED <<peer, reason, seenL, cval, cnext>>
     /\ UNCHANGED <<sig, ap, iceT, sock, seenC, role, dtls, dtask, dpermit, seenD, sctp, srun, spermit,
                    swhy, opened, grace, cl, handles, dropped, calls, peerAlive, alertIn, abortIn,
-                   shutdownIn, plan, fired>>
+                   shutdownIn, wfcLeft, fired>>
 
 -----------------------------------------------------------------------------
 (* C: connected-state handler with start_dtls *)
 
 CUnch == <<sig, ap, iceT, sock, seenL, role, lp, dtask, dpermit, srun, swhy, chan, opened, closes, cl, handles,
-           dropped, calls, peerAlive, alertIn, abortIn, shutdownIn, plan, fired>>
+           dropped, calls, peerAlive, alertIn, abortIn, shutdownIn, wfcLeft, fired>>
 
 C_Role ==
     /\ cp = "waitRole"
@@ -387,7 +393,7 @@ C_Start ==
                  /\ UNCHANGED <<cval, cnext, reason>>
     /\ UNCHANGED <<peer, seenC, spermit, loops, grace>>
     /\ UNCHANGED <<sig, ap, iceT, sock, seenL, role, lp, dpermit, srun, swhy, chan, opened, closes, cl, handles,
-                   dropped, calls, peerAlive, alertIn, abortIn, shutdownIn, plan, fired>>
+                   dropped, calls, peerAlive, alertIn, abortIn, shutdownIn, wfcLeft, fired>>
     /\ dtask' = IF sock /\ ~IsDirect THEN "running" ELSE dtask
 
 \* (probe dtls.handshaking) -> the select loop of start_dtls
@@ -397,21 +403,27 @@ C_HsEnter ==
     /\ UNCHANGED <<peer, reason, seenC, cval, cnext, dtls, seenD, sctp, stask, spermit, loops, grace>>
     /\ UNCHANGED CUnch
 
-C_Hs ==
+C_HsOk ==
+    /\ cp = "hs" /\ dtls = "Connected"
+    /\ cp' = "hsConn"
+    /\ UNCHANGED <<peer, reason, seenC, cval, cnext, dtls, seenD, sctp, stask, spermit, loops, grace>>
+    /\ UNCHANGED CUnch
+
+C_HsFail ==
     /\ cp = "hs"
-    /\ \/ /\ dtls = "Connected"
-          /\ cp' = "hsConn" /\ UNCHANGED <<cval, cnext, reason>>
-       \/ /\ dtls \in {"Failed", "Closed"}
+    /\ \/ /\ dtls \in {"Failed", "Closed"}
           /\ cp' = "pre:conn.start_failed" /\ cval' = "Failed" /\ cnext' = "retFalse" /\ SetReason("DtlsFailed")
        \/ /\ stask = "inlineDone"        \* "SCTP runner stopped unexpectedly"
           /\ cp' = "pre:conn.start_failed" /\ cval' = "Failed" /\ cnext' = "retFalse" /\ SetReason("DtlsFailed")
        \/ /\ dtask = "done" /\ dtls \notin {"Connected", "Failed", "Closed"}
-          /\ IF "HsRunnerDoneWaits" \in Deviations
-             THEN cp' = "hsDone" /\ UNCHANGED <<cval, cnext, reason>>
-             ELSE cp' = "pre:conn.start_failed" /\ cval' = "Failed" /\ cnext' = "retFalse" /\
-                  SetReason("DtlsFailed")
+          /\ \/ cp' = "pre:conn.start_failed" /\ cval' = "Failed" /\ cnext' = "retFalse" /\
+                SetReason("DtlsFailed")
+             \/ /\ "HsRunnerDoneWaits" \in Deviations
+                /\ cp' = "hsDone" /\ UNCHANGED <<cval, cnext, reason>>
     /\ UNCHANGED <<peer, seenC, dtls, seenD, sctp, stask, spermit, loops, grace>>
     /\ UNCHANGED CUnch
+
+C_Hs == C_HsOk \/ C_HsFail
 
 \* DTLS connected: SRTP keys, transport loops spawned under the guard
 C_HsConn ==
@@ -448,52 +460,68 @@ C_Publish ==
     /\ UNCHANGED <<reason, seenC, cval, cnext, dtls, seenD, sctp, stask, loops, grace>>
     /\ UNCHANGED CUnch
 
-C_Run ==
-    /\ cp = "run"
-    /\ \/ \* one of the transport loops has ended
-          /\ loops = "done"
-          /\ SetReason(IF SctpReason(swhy) # "None" THEN SctpReason(swhy)
-                       ELSE IF "LoopsDoneSilent" \in Deviations THEN reason ELSE "Unknown")
-          /\ IF "LoopsDoneSilent" \in Deviations
-             THEN cp' = (IF iceT \in {"Failed", "Closed"} THEN "retTrue" ELSE "retFalse") /\
-                  UNCHANGED <<cval, cnext>>
-             ELSE cp' = "pre:conn.loops_done" /\ cval' = "Disconnected" /\
-                  cnext' = (IF iceT \in {"Failed", "Closed"} THEN "retTrue" ELSE "retFalse")
-          /\ UNCHANGED <<seenC, seenD, grace>>
-       \/ \* ICE state changed
-          /\ iceT # seenC
-          /\ seenC' = iceT
-          /\ CASE iceT \in {"Failed", "Closed"} ->
-                    cp' = "retTrue" /\ UNCHANGED <<cval, cnext, grace>>
-               [] iceT = "Disconnected" ->
-                    cp' = "pre:conn.ice_disc" /\ cval' = "Disconnected" /\ cnext' = "run" /\ grace' = TRUE
-               [] iceT = "Connected" ->
-                    cp' = "pre:conn.ice_rec" /\ cval' = "Connected" /\ cnext' = "run" /\ grace' = FALSE
-               [] OTHER -> UNCHANGED <<cp, cval, cnext, grace>>
-          /\ UNCHANGED <<reason, seenD>>
-       \/ \* DTLS closed or failed (WebRtc)
-          /\ ~IsDirect /\ dtls # seenD
-          /\ seenD' = dtls
-          /\ IF dtls \in {"Closed", "Failed"}
-             THEN /\ SetReason(IF dtls = "Failed" THEN "DtlsFailed" ELSE "DtlsClosed")
-                  /\ cp' = "pre:conn.dtls_end" /\ cval' = "Disconnected" /\ cnext' = "retFalse"
-             ELSE UNCHANGED <<reason, cp, cval, cnext>>
-          /\ UNCHANGED <<seenC, grace>>
-       \/ \* disconnect grace expired
-          /\ grace
-          /\ grace' = FALSE
-          /\ SetReason("IceDisconnected")
-          /\ cp' = "pre:conn.grace" /\ cval' = "Disconnected" /\ cnext' = "retTrue"
-          /\ UNCHANGED <<seenC, seenD>>
+\* the WebRTC handler lets the ICE loop look again when ICE has failed or closed; the no-DTLS handler just ends
+LoopsDoneRet == IF ~IsDirect /\ iceT \in {"Failed", "Closed"} THEN "retTrue" ELSE "retFalse"
+
+\* one of the transport loops has ended
+C_RunLoops ==
+    /\ cp = "run" /\ loops = "done"
+    /\ \/ /\ SetReason(IF SctpReason(swhy) # "None" THEN SctpReason(swhy) ELSE "Unknown")
+          /\ cp' = "pre:conn.loops_done" /\ cval' = "Disconnected"
+          /\ cnext' = LoopsDoneRet
+       \/ /\ "LoopsDoneSilent" \in Deviations
+          /\ SetReason(SctpReason(swhy))
+          /\ cp' = LoopsDoneRet
+          /\ UNCHANGED <<cval, cnext>>
+    /\ UNCHANGED <<seenC, seenD, grace>>
     /\ UNCHANGED <<peer, dtls, sctp, stask, spermit, loops>>
     /\ UNCHANGED CUnch
+
+\* ICE state changed
+C_RunIce ==
+    /\ cp = "run" /\ iceT # seenC
+    /\ seenC' = iceT
+    /\ CASE iceT \in {"Failed", "Closed"} ->
+              cp' = "retTrue" /\ UNCHANGED <<cval, cnext, grace>>
+         [] iceT = "Disconnected" ->
+              cp' = "pre:conn.ice_disc" /\ cval' = "Disconnected" /\ cnext' = "run" /\ grace' = TRUE
+         [] iceT = "Connected" ->
+              cp' = "pre:conn.ice_rec" /\ cval' = "Connected" /\ cnext' = "run" /\ grace' = FALSE
+         [] OTHER -> UNCHANGED <<cp, cval, cnext, grace>>
+    /\ UNCHANGED <<reason, seenD>>
+    /\ UNCHANGED <<peer, dtls, sctp, stask, spermit, loops>>
+    /\ UNCHANGED CUnch
+
+\* DTLS closed or failed (WebRtc)
+C_RunDtls ==
+    /\ cp = "run" /\ ~IsDirect /\ dtls # seenD
+    /\ seenD' = dtls
+    /\ IF dtls \in {"Closed", "Failed"}
+       THEN /\ SetReason(IF dtls = "Failed" THEN "DtlsFailed" ELSE "DtlsClosed")
+            /\ cp' = "pre:conn.dtls_end" /\ cval' = "Disconnected" /\ cnext' = "retFalse"
+       ELSE UNCHANGED <<reason, cp, cval, cnext>>
+    /\ UNCHANGED <<seenC, grace>>
+    /\ UNCHANGED <<peer, dtls, sctp, stask, spermit, loops>>
+    /\ UNCHANGED CUnch
+
+\* disconnect grace expired
+C_RunGrace ==
+    /\ cp = "run" /\ grace
+    /\ grace' = FALSE
+    /\ SetReason("IceDisconnected")
+    /\ cp' = "pre:conn.grace" /\ cval' = "Disconnected" /\ cnext' = "retTrue"
+    /\ UNCHANGED <<seenC, seenD>>
+    /\ UNCHANGED <<peer, dtls, sctp, stask, spermit, loops>>
+    /\ UNCHANGED CUnch
+
+C_Run == C_RunLoops \/ C_RunIce \/ C_RunDtls \/ C_RunGrace
 
 -----------------------------------------------------------------------------
 (* D: DTLS runner *)
 
 DUnch == <<peer, sig, reason, ap, iceT, sock, seenL, seenC, role, lp, cp, cval, cnext, seenD, sctp, stask, srun,
            spermit, swhy, loops, chan, opened, closes, grace, cl, handles, dropped, calls, peerAlive,
-           abortIn, shutdownIn, plan, fired>>
+           abortIn, shutdownIn, wfcLeft, fired>>
 
 D_Connect ==
     /\ dtask = "running" /\ dtls = "Handshaking" /\ sock /\ peerAlive
@@ -528,7 +556,7 @@ D_Timeout ==
 (* S: SCTP runner (polled inline by start_dtls before DTLS is up, as a transport loop afterwards) *)
 
 SUnch == <<peer, sig, reason, ap, iceT, sock, seenL, seenC, role, lp, cp, cval, cnext, dtls, dtask, dpermit,
-           seenD, grace, cl, handles, dropped, calls, peerAlive, alertIn, plan, fired>>
+           seenD, grace, cl, handles, dropped, calls, peerAlive, alertIn, wfcLeft, fired>>
 
 SExit(why) ==
     /\ swhy' = IF why = "" THEN swhy ELSE why
@@ -597,7 +625,7 @@ T_DirectEnd ==
 
 EUnch == <<peer, sig, reason, ap, seenL, seenC, role, lp, cp, cval, cnext, dtls, dtask, dpermit, seenD, sctp, stask,
            srun, spermit, swhy, loops, chan, opened, closes, grace, cl, handles, dropped, calls, alertIn, abortIn,
-           shutdownIn, plan, fired>>
+           shutdownIn, wfcLeft, fired>>
 
 I_Connect ==
     /\ iceT = "Checking" /\ peerAlive
@@ -625,7 +653,7 @@ R_WaitConnected ==
     /\ calls' = calls \ {"wfc"}
     /\ UNCHANGED <<peer, sig, reason, ap, iceT, sock, seenL, seenC, role, lp, cp, cval, cnext, dtls, dtask, dpermit,
                    seenD, sctp, stask, srun, spermit, swhy, loops, chan, opened, closes, grace, cl, handles, dropped,
-                   peerAlive, alertIn, abortIn, shutdownIn, plan, fired>>
+                   peerAlive, alertIn, abortIn, shutdownIn, wfcLeft, fired>>
 
 -----------------------------------------------------------------------------
 (* terminating events of the scenario *)
@@ -638,18 +666,19 @@ Applicable(e) ==
       [] e = "PeerSctpAbort"    -> Dc /\ sctp = "Established" /\ peerAlive
       [] e = "PeerSctpShutdown" -> Dc /\ sctp = "Established" /\ peerAlive
       [] e = "SocketLoss"       -> ~IsDirect /\ peerAlive /\ iceT \in {"Checking", "Connected"}
-      [] e = "BlockedSender"    -> Dc /\ chan = "open" /\ peerAlive /\ handles > 0 /\ (\E k \in {1, 2} : cl[k] = "idle")
+      [] e = "BlockedSender"    -> Dc /\ chan = "open" /\ peerAlive /\ handles > 0 /\ (\E k \in {1, 2} : cl[k] \in {"idle", "done"})
       [] OTHER                  -> FALSE
 
-FreeCloser == CHOOSE k \in {1, 2} : cl[k] = "idle"
+FreeCloser == CHOOSE k \in {1, 2} : cl[k] \in {"idle", "done"}
 
 Effect(e) ==
     CASE e = "Close" ->
            /\ cl' = [cl EXCEPT ![FreeCloser] = "begin"]
            /\ UNCHANGED <<handles, iceT, sock, peerAlive, alertIn, abortIn, shutdownIn, calls>>
       [] e = "Drop" ->
-           /\ handles' = 0
-           /\ UNCHANGED <<cl, iceT, sock, peerAlive, alertIn, abortIn, shutdownIn, calls>>
+           \* every handle goes, also those held by the application's pending calls
+           /\ handles' = 0 /\ calls' = {}
+           /\ UNCHANGED <<cl, iceT, sock, peerAlive, alertIn, abortIn, shutdownIn>>
       [] e = "IceStop" ->
            /\ iceT' = "Closed" /\ sock' = FALSE
            /\ UNCHANGED <<cl, handles, peerAlive, alertIn, abortIn, shutdownIn, calls>>
@@ -671,33 +700,26 @@ Effect(e) ==
            /\ cl' = [cl EXCEPT ![FreeCloser] = "begin"]
            /\ UNCHANGED <<handles, iceT, sock, alertIn, abortIn, shutdownIn>>
 
-\* the first event fires when the planned phase is reached; a second one at any later moment
-Fire ==
-    /\ plan.evs # <<>>
-    /\ IF fired = <<>> THEN PhaseNow = plan.phase ELSE TRUE
-    /\ Applicable(Head(plan.evs))
-    /\ Effect(Head(plan.evs))
-    /\ fired' = Append(fired, [ev |-> Head(plan.evs), at |-> IF IsPre(cp) THEN cp ELSE
-                                                       IF lp \in {"pre:iceloop.ice_failed", "pre:iceloop.ice_closed"}
-                                                       THEN lp ELSE "any"])
-    /\ plan' = [plan EXCEPT !.evs = Tail(plan.evs)]
+\* the first event fires at one of the phases, a second (racing) one at any later moment
+Fire(e) ==
+    /\ Len(fired) < MaxEvents
+    /\ IF fired = <<>> THEN e \in Ev1Set /\ PhaseNow \in PhaseSet ELSE e \in Ev2Set
+    /\ Applicable(e)
+    /\ Effect(e)
+    /\ fired' = Append(fired, [ev |-> e, phase |-> PhaseNow,
+                               at |-> IF IsPre(cp) THEN cp ELSE
+                                      IF lp \in {"pre:iceloop.ice_failed", "pre:iceloop.ice_closed"}
+                                      THEN lp ELSE "any"])
     /\ UNCHANGED <<peer, sig, reason, ap, seenL, seenC, role, lp, cp, cval, cnext, dtls, dtask, dpermit, seenD, sctp,
-                   stask, srun, spermit, swhy, loops, chan, opened, closes, grace, dropped>>
+                   stask, srun, spermit, swhy, loops, chan, opened, closes, grace, dropped, wfcLeft>>
 
-\* a pending wait_for_connected() is part of every scenario from the moment the offer is out
+\* the application may be waiting in wait_for_connected() before the event, and ask again afterwards
 A_CallWfc ==
-    /\ ap = "offerMade" /\ "wfc" \notin calls /\ handles > 0 /\ fired = <<>> /\ plan.pendingWfc
+    /\ "wfc" \notin calls /\ handles > 0 /\ wfcLeft > 0
+    /\ ap \notin {"init", "gathering", "gathered"}
+    /\ (fired = <<>> => wfcLeft = WfcBudget)
     /\ calls' = calls \cup {"wfc"}
-    /\ plan' = [plan EXCEPT !.pendingWfc = FALSE]
-    /\ UNCHANGED <<peer, sig, reason, ap, iceT, sock, seenL, seenC, role, lp, cp, cval, cnext, dtls, dtask, dpermit,
-                   seenD, sctp, stask, srun, spermit, swhy, loops, chan, opened, closes, grace, cl, handles, dropped,
-                   peerAlive, alertIn, abortIn, shutdownIn, fired>>
-
-\* after a terminating event the application asks again
-A_CallWfcAfter ==
-    /\ fired # <<>> /\ "wfc" \notin calls /\ handles > 0 /\ plan.afterWfc
-    /\ calls' = calls \cup {"wfc"}
-    /\ plan' = [plan EXCEPT !.afterWfc = FALSE]
+    /\ wfcLeft' = wfcLeft - 1
     /\ UNCHANGED <<peer, sig, reason, ap, iceT, sock, seenL, seenC, role, lp, cp, cval, cnext, dtls, dtask, dpermit,
                    seenD, sctp, stask, srun, spermit, swhy, loops, chan, opened, closes, grace, cl, handles, dropped,
                    peerAlive, alertIn, abortIn, shutdownIn, fired>>
@@ -714,7 +736,7 @@ Next ==
     \/ T_DirectEnd
     \/ I_Connect \/ I_Disconnect \/ I_Fail
     \/ R_WaitConnected
-    \/ Fire \/ A_CallWfc \/ A_CallWfcAfter
+    \/ (\E e \in Events : Fire(e)) \/ A_CallWfc
 
 \* every step of the code's own tasks is fair; the application script and the events are not
 Fairness ==
@@ -728,8 +750,7 @@ Fairness ==
     /\ WF_vars(InnerDrop \/ AbortTracked)
     /\ WF_vars(R_WaitConnected)
     /\ WF_vars(A_MakeOffer \/ A_GatherDone \/ A_SetLocal \/ A_SetRemote \/ A_Reneg)
-    /\ WF_vars(Fire)
-    /\ WF_vars(A_CallWfc \/ A_CallWfcAfter)
+    /\ WF_vars(A_CallWfc)
 
 Spec == Init /\ [][Next]_vars /\ Fairness
 
